@@ -153,6 +153,16 @@ class Ctx:
                 raise HarnessError(f"{label}: flaky under replay: {e}") from e
         except BaseExceptionGroup as eg:  # noqa: F821  (py3.11+)
             self._record_group(label, eg)
+        except Exception as e:  # noqa: BLE001
+            # An exception raised by Hypothesis' own shrinker (seen: 'ValueError: 42 is not in list' while shrinking a text drawn from a
+            # small alphabet) hides the failure it was shrinking.  Run the same seeded search again without the shrink phase: the
+            # unshrunk Violation is recorded instead.  Anything raised by the test itself stays a harness error.
+            import traceback
+
+            tb = traceback.extract_tb(e.__traceback__)
+            if shrink and tb and "/hypothesis/" in tb[-1].filename.replace("\\", "/"):
+                return self.hyp(test, max_examples=max_examples, shrink=False, stateful_steps=stateful_steps, name=name)
+            raise
 
     def _record_group(self, label, eg, flaky=False):
         vs = []
